@@ -39,10 +39,17 @@
   is blocked, `workers_progress` finds a hasher or the reader that can move (the vital hasher
   is alive as long as the reader runs; a full queue has a taker), and when the reader and all
   hashers are done the event is set and the janitor reaches a progress step within its round.
+  Termination (PipelineMeasure, PipelineCore, PipelineFair): the measure `mu` (thread ranks + 3 per
+  piece-queue entry + 1 per hash-queue entry + 1 per tracked hasher) strictly decreases with
+  every progress step, so executions have at most `14·N + 4·#items + 27` of them; in the idle
+  suffix of an infinite execution the core state is constant, the steps of main/reader/hashers
+  commute with `core`, each thread has at most one enabled label, and weak fairness forces the
+  progress step that deadlock freedom provides.
 -/
 import Torf.Lemmas.PipelineLive
 import Torf.Lemmas.PipelineOut
 import Torf.Lemmas.PipelineMeasure
+import Torf.Lemmas.PipelineFair
 namespace Torf.C03
 open Torf.Pipeline
 
@@ -138,6 +145,29 @@ theorem C03_progress_measure {cfg : Cfg} {s s' : State} {l : Label} (hrf : cfg.r
     simp only [isProgress, decide_eq_false_iff_not, Decidable.not_not] at hp
     exact hp.symm
 
+/-- Deadlock freedom in its plain form: a reachable state in which no thread can take any step
+    is a state in which main has returned (and then all threads are done, `C03_threads_done`). -/
+theorem C03_stuck_is_terminal {cfg : Cfg} {s : State} (hwf : wf cfg = true) (hrf : cfg.refuse = [])
+    (h : Reachable cfg s) (hstuck : ∀ l, step cfg s l = none) : terminal s = true := by
+  cases ht : terminal s with
+  | true => rfl
+  | false =>
+    have hcp := C03_deadlock_free hwf hrf h ht
+    unfold canProgress at hcp
+    simp only [Bool.or_eq_true, List.any_eq_true] at hcp
+    rcases hcp with ⟨l, _, hl⟩ | hj
+    · simp [hstuck l] at hl
+    · unfold janitorReachesProgress at hj
+      simp [hstuck] at hj
+
+/-- Termination: there is no infinite execution under a weakly fair scheduler (one that does not
+    ignore a thread that stays enabled) — whatever the schedule and the timing of the timeouts,
+    with cancelling or raising callbacks and read faults as well.  With `C03_stuck_is_terminal`:
+    every fair execution is finite and ends with main returned and all threads done. -/
+theorem C03_termination {cfg : Cfg} (hwf : wf cfg = true) (hrf : cfg.refuse = []) (e : Exec cfg) :
+    ¬ e.Fair :=
+  fun hfair => e.not_fair hwf hrf hfair
+
 /-! ### the hypotheses are satisfiable: concrete schedules -/
 
 private def lM : Label := ⟨.main, false⟩
@@ -211,6 +241,39 @@ example : outcomeOk cfgBad (.raised (.item 0)) = true := by decide
 
 /-- the complete schedule of `cfgOk` consists of 24 progress steps; the bound is 45 -/
 example : progressSteps cfgOk (init cfgOk) schedOk = 24 ∧ progressBound cfgOk = 45 := by decide
+
+/-- infinite executions exist (so `C03_termination` is about something) and fairness is needed:
+    with main descheduled after starting the vital hasher, the hasher's idle timeout can repeat
+    forever -/
+private def idleLab (n : Nat) : Label := [lM, lM, lM, lM, lH].getD n ⟨.hasher 0, true⟩
+
+private def idleSt : Nat → State
+  | 0 => init cfgOk
+  | n + 1 => (step cfgOk (idleSt n) (idleLab n)).getD (idleSt n)
+
+private theorem idleSt_const (n : Nat) : idleSt (n + 5) = idleSt 5 := by
+  induction n with
+  | zero => rfl
+  | succ n ih =>
+    have hl : idleLab (n + 5) = ⟨.hasher 0, true⟩ := by simp [idleLab]
+    have hs : step cfgOk (idleSt 5) ⟨.hasher 0, true⟩ = some (idleSt 5) := by decide
+    show (step cfgOk (idleSt (n + 5)) (idleLab (n + 5))).getD (idleSt (n + 5)) = idleSt 5
+    rw [ih, hl, hs]; rfl
+
+private def idleExec : Exec cfgOk where
+  st := idleSt
+  lab := idleLab
+  start := rfl
+  next := by
+    intro n
+    match n with
+    | 0 | 1 | 2 | 3 | 4 => decide
+    | n + 5 =>
+      have hl : idleLab (n + 5) = ⟨.hasher 0, true⟩ := by simp [idleLab]
+      have hs : step cfgOk (idleSt 5) ⟨.hasher 0, true⟩ = some (idleSt 5) := by decide
+      rw [show n + 5 + 1 = (n + 1) + 5 by omega, idleSt_const n, idleSt_const (n + 1), hl, hs]
+
+example : ¬ idleExec.Fair := C03_termination (by decide) rfl idleExec
 
 /-- the hypotheses of `C03_deadlock_free` hold in non-terminal reachable states, e.g. while main
     is blocked on the empty hash queue and while it is blocked in `join` -/
